@@ -2334,6 +2334,16 @@ impl Residual {
         debug_assert!(rice_params.len() == 1usize << partition_order as usize);
 
         let max_quotients: usize = find_max::<64>(&quotients) as usize;
+        #[cfg(flacenc_verif)]
+        crate::verif_hook::point(
+            if max_quotients * block_size < u32::MAX as usize {
+                "cov.residual.simdsum"
+            } else {
+                "cov.residual.scalarsum"
+            },
+            block_size,
+            max_quotients,
+        );
         let sum_quotients: usize = if max_quotients * block_size < u32::MAX as usize {
             // If overflow-safe, use SIMD.
             wrapping_sum::<u32, 32>(&quotients) as usize
